@@ -62,6 +62,7 @@ type TxCtx struct {
 	Block, Idx int
 	Delivered  bool
 	Signers    map[string]bool // every account whose signature the transaction carries (bech32)
+	Granter    sdk.AccAddress  // fee granter named by the delivered bytes (nil if none)
 	Stash      map[string]interface{}
 }
 
@@ -538,6 +539,7 @@ func (w *World) prepareTx(ts *TxSpec, idx int) *TxCtx {
 		if ft, ok := dec.(sdk.FeeTx); ok {
 			tx.Fee = ft.GetFee()
 			tx.Payer = ft.FeePayer()
+			tx.Granter = ft.FeeGranter()
 		}
 		canonMsgs(tx.Msgs)
 		return tx
@@ -571,6 +573,7 @@ func (w *World) prepareTx(ts *TxSpec, idx int) *TxCtx {
 			func() {
 				defer func() { _ = recover() }()
 				tx.Payer = ft.FeePayer()
+				tx.Granter = ft.FeeGranter()
 			}()
 		}
 	}
